@@ -24,6 +24,7 @@ from batchie import retrospective as R  # noqa: E402
 from batchie.data import ExperimentSpace, Screen  # noqa: E402
 
 PROP = "C02"
+EPILOGUE_ITEMS = 2
 LEVEL = "model_checking"
 ENGINE = "E1-input-enumeration+E2-choice-tree"
 TECHNIQUE = "bounded-exhaustive enumeration of screens x save/load histories, field-by-field comparison with the original"
